@@ -65,35 +65,27 @@ theorem storeBlob_keeps_existing {s : St} (h : Inv s) (oid n base : Nat) (check 
           · simp only [e, if_false]; exact hkb
 
 theorem undo_keeps_existing {s : St} (h : Inv s) (utid : Nat) (k : Key) (b : Bytes)
-    (hkb : aget s.files k = some b) : aget (undo s utid).1.files k = some b := by
-  unfold undo
-  cases hfl : s.flavor with
-  | wrap => exact hkb
-  | fs =>
-    simp only
-    cases hn : s.txn with
-    | none => exact hkb
-    | some t =>
-      simp only
-      split
-      · exact hkb
-      · split
-        · exact hkb
-        · have h0 : Inv (accSt s t (acc0 s t)) := by
-            refine h.congr rfl rfl rfl ?_ rfl
-            show some (accTxn t (acc0 s t)) = s.txn
-            rw [hn]; simp [accTxn, acc0]
-          exact undoFold_files_mono hfl (txnRecs s.hist utid) h0 k b hkb
+    (hkb : aget s.files k = some b) (hkd : k ∉ s.dirty) : aget (undo s utid).1.files k = some b := by
+  cases hn : s.txn with
+  | none => rw [((undo_facts s utid).2.2 hn).1]; exact hkb
+  | some t =>
+    have hne : k.2 ≠ t.tid := by
+      intro e
+      exact hkd ((h.own_file hn k e).1 (by rw [hkb]; rfl))
+    rw [((undo_facts s utid).2.1 t hn).2.1 k hne]; exact hkb
 
 /-- The bytes of a blob file never change: a step leaves every existing file as it is, or removes
     it — and it removes it only by aborting the transaction that created it, or by a pack after
-    which no kept blob record names it. -/
+    which no kept blob record names it.  Only exception: a file the transaction in progress has put
+    in place itself (a dirty, not yet committed name) may be replaced by a further `undo` of that
+    same transaction (multi-undo). -/
 theorem file_fate {s : St} (h : Inv s) (o : Op) (ha : Admissible s o) (k : Key) (b : Bytes)
     (hkb : aget s.files k = some b) :
     aget (next s o).files k = some b ∨
     (aget (next s o).files k = none ∧
       ((o = .abort ∧ k ∈ s.dirty) ∨
-       (∃ T drop ko, o = .pack T drop ko ∧ ¬ BlobRecIn (next s o).hist k))) := by
+       (∃ T drop ko, o = .pack T drop ko ∧ ¬ BlobRecIn (next s o).hist k))) ∨
+    (k ∈ s.dirty ∧ ∃ utid, o = .undo utid) := by
   have hI' := inv_next h o ha
   cases o with
   | mkTemp n b' => exact Or.inl hkb
@@ -122,9 +114,12 @@ theorem file_fate {s : St} (h : Inv s) (o : Op) (ha : Admissible s o) (k : Key) 
     | none => exact hkb
     | some t => simp only; split <;> exact hkb
   | foreignAbort => exact Or.inl hkb
-  | undo utid => exact Or.inl (undo_keeps_existing h utid k b hkb)
+  | undo utid =>
+    by_cases hkd : k ∈ s.dirty
+    · exact Or.inr (Or.inr ⟨hkd, utid, rfl⟩)
+    · exact Or.inl (undo_keeps_existing h utid k b hkb hkd)
   | abort =>
-    show aget (abort s).1.files k = some b ∨ (aget (abort s).1.files k = none ∧ _)
+    show aget (abort s).1.files k = some b ∨ (aget (abort s).1.files k = none ∧ _) ∨ _
     unfold abort
     cases hn : s.txn with
     | none => exact Or.inl hkb
@@ -132,12 +127,12 @@ theorem file_fate {s : St} (h : Inv s) (o : Op) (ha : Admissible s o) (k : Key) 
       simp only
       rw [aget_blobTpcAbort]
       by_cases hd : k ∈ s.dirty
-      · right; simp [hd]
+      · right; left; simp [hd]
       · left; simp [hd, hkb]
   | pack T drop ko =>
     cases hc : aget (next s (.pack T drop ko)).files k with
     | none =>
-      right
+      right; left
       refine ⟨rfl, Or.inr ⟨T, drop, ko, rfl, ?_⟩⟩
       intro hb
       have := (hI'.filesIff k).2 (Or.inl hb)
